@@ -290,6 +290,14 @@ class CList:
         self.n = n
 
 
+class MemList:
+    """a Python list of ints that the function only ever appends to and tests membership in (contract type `list_members`): abstracted to the SET of its
+    elements (characteristic array Int -> Bool).  `[]` is the empty set, append adds, `x in l` reads the array; every other operation is unsupported."""
+
+    def __init__(self, chi):
+        self.chi = chi
+
+
 class MaybeFloat:
     """an integer-valued numpy scalar whose dtype is float64 when `when` holds (sum / % over array([]) without a dtype)."""
 
